@@ -246,7 +246,7 @@ Proof.
   assert (Hd : ~ (ps p < pe q /\ ps q < pe p)) by (intros H; apply (simple_overlap p q Hp Hq) in H; congruence).
   unfold coll_lt, kstart. cbn [bridges is_compound contains forallb existsb lstart llen map lmin fold_left fold_right].
   unfold part_contains.
-  match goal with |- context [if ?c then _ else _] => destruct c eqn:E end; split; try intros H; lia.
+  repeat match goal with |- context [if ?c then _ else _] => destruct c eqn:? end; split; try intros H; lia.
 Qed.
 
 Lemma lstart1 p : lstart [p] = ps p. Proof. reflexivity. Qed.
@@ -578,7 +578,7 @@ Proof.
   intros Hp Hq. unfold coll_lt, kstart, area_lt.
   cbn [bridges is_compound contains forallb existsb lstart llen map lmin fold_left fold_right s e].
   unfold part_contains.
-  match goal with |- context [if ?c then _ else _] => destruct c eqn:E end; lia.
+  repeat match goal with |- context [if ?c then _ else _] => destruct c eqn:? end; lia.
 Qed.
 
 Lemma step_overlap N p q ms rest : 0 <= ps p -> ps p < pe p -> pe p <= N -> ps q < pe q ->
